@@ -389,7 +389,14 @@ func (e *Enc) get(fr *Frame, v ssa.Value) Val {
 		qd := e.quantDepth
 		e.quantDepth = 0
 		defer func() { e.quantDepth = qd }()
+		// a value defined outside the encoded region exists when the region is entered: references in
+		// it lie below the allocation frontier of the region's entry state
+		saveSt := e.st
+		if fr.entrySt != nil {
+			e.st = fr.entrySt
+		}
 		x := e.freshVal(v.Type(), "ext_"+v.Name())
+		e.st = saveSt
 		if e.discovery == 0 && x.Tup == nil {
 			nm := v.Name()
 			if p, ok := v.(*ssa.Parameter); ok {
@@ -419,6 +426,9 @@ func (e *Enc) get(fr *Frame, v ssa.Value) Val {
 		}
 		if al, isAlloc := v.(*ssa.Alloc); isAlloc {
 			e.assert(T{BoolS, app("<", "0", x.L[0].E)})
+			if fr.entrySt != nil {
+				e.assert(T{BoolS, app("<", x.L[0].E, e.heapGet(fr.entrySt, "!top", IntS).E)})
+			}
 			if (!al.Heap || closureOnly(al)) && e.discovery == 0 {
 				e.privateCells = append(e.privateCells, privateCell{x, al.Type().(*types.Pointer).Elem()})
 			}
@@ -1333,6 +1343,8 @@ func (e *Enc) edge(fr *Frame, from, to *ssa.BasicBlock, guard T, st *State) {
 			// (the region loop's own condition exit is not a break: no `body exit` clause applies there)
 			if fr.regionLoop == nil || from != fr.regionLoop.header {
 				e.exitEdge(fr, from, to, guard, st)
+			} else if spec := e.loopSpec(fr, fr.regionLoop); spec != nil && len(spec.DoneEns) > 0 {
+				e.exitEdge(fr, from, to, guard, st)
 			}
 			return
 		}
@@ -1410,6 +1422,22 @@ func (e *Enc) exitEdge(fr *Frame, from, to *ssa.BasicBlock, guard T, st *State) 
 	spec := e.loopSpec(fr, li)
 	if spec == nil || !spec.Body {
 		return
+	}
+	if from == li.header {
+		// the loop's own condition ends the loop: `body done` clauses, evaluated in the loop-head state
+		if len(spec.DoneEns) > 0 {
+			sc := e.scopeAt(fr, from, len(from.Instrs)-1, st)
+			sc.old = fr.entrySt
+			sc.oldHdr = li.header
+			for _, c := range spec.DoneEns {
+				t, ok := e.evalClauseOpt(fr, sc, c)
+				if !ok {
+					continue
+				}
+				e.oblige("body-done", fmt.Sprintf("loop%d:%s", li.ord, clabel(c)), guard, t, c.Src, from.Instrs[len(from.Instrs)-1].Pos())
+			}
+			return
+		}
 	}
 	// `body exit` clauses are about leaving the loop by break or by its condition; an edge to a
 	// block that only returns (or panics) is the function returning from inside the loop
